@@ -84,7 +84,33 @@ def dump_type(t, root: str) -> dict:
         'bool_array_names': [f.name for f in fields if f.name and isinstance(f.data_type, pydsdl.ArrayType)
                              and isinstance(f.data_type.element_type, pydsdl.BooleanType)],
         'delimited': [isinstance(s, pydsdl.DelimitedType) for s in sections],
+        # per section: every attribute name that becomes an identifier of the generated class/struct (fields and constants)
+        'section_names': [[a.name for a in sec.attributes if a.name] for sec in sections],
     }
+
+
+_LANGS = {}
+
+
+def strop_table(names) -> dict:
+    """Language.filter_id(name) (default id type) of the REAL generator for c, cpp and py: used by the check only to recognise the
+    documented exclusion (distinct DSDL names folded onto one identifier by the one-way stropping)"""
+    out = {}
+    try:
+        from nunavut.lang import LanguageContextBuilder
+        for ln in ('c', 'cpp', 'py'):
+            if ln not in _LANGS:
+                _LANGS[ln] = LanguageContextBuilder(include_experimental_languages=True).set_target_language(ln).create().get_target_language()
+            tbl = {}
+            for n in names:
+                try:
+                    tbl[n] = _LANGS[ln].filter_id(n)
+                except Exception as ex:  # noqa
+                    tbl[n] = None
+            out[ln] = tbl
+    except Exception as ex:  # noqa
+        out['error'] = repr(ex)
+    return out
 
 
 def write_case(case: dict, base: str) -> dict:
@@ -209,8 +235,13 @@ def do_case(case: dict, base: str, configs, pool) -> dict:
         return {'valid': False, 'reason': '%s: %s' % (type(ex).__name__, ex), 'types': [], 'runs': {}}
     except Exception as ex:  # noqa  (pydsdl internal error: not a valid input for our purposes either)
         return {'valid': False, 'reason': 'pydsdl raised %r' % ex, 'types': [], 'runs': {}}
+    names = set()
+    for t in types:
+        for sec in t['section_names']:
+            names.update(sec)
+    strop = strop_table(sorted(names))
     futs = {cfg_key(c): pool.submit(run_cfg, case, dirs, base, c) for c in configs}
-    return {'valid': True, 'reason': '', 'types': types, 'dirs': dirs, 'runs': futs}
+    return {'valid': True, 'reason': '', 'types': types, 'dirs': dirs, 'runs': futs, 'strop': strop}
 
 
 def main() -> None:
